@@ -85,6 +85,19 @@ theorem IsRot.normSq_mulVec {A : Mat3 ℝ} (hA : IsRot A) (v : Vec3 ℝ) :
   rw [show Vec3.normSq v = Vec3.dot v v from rfl, ← e]
   mat3_simp; ring
 
+theorem Mat3.mulVec_add (A : Mat3 ℝ) (u v : Vec3 ℝ) : A.mulVec (u + v) = A.mulVec u + A.mulVec v := by
+  apply Vec3.ext' <;> mat3_simp <;> ring
+
+/-- rotations preserve dot products (polarisation of `normSq_mulVec`) -/
+theorem IsRot.dot_mulVec {A : Mat3 ℝ} (hA : IsRot A) (v w : Vec3 ℝ) :
+    Vec3.dot (A.mulVec v) (A.mulVec w) = Vec3.dot v w := by
+  have h1 := hA.normSq_mulVec (v + w)
+  have h2 := hA.normSq_mulVec v
+  have h3 := hA.normSq_mulVec w
+  rw [Mat3.mulVec_add] at h1
+  simp only [Vec3.normSq, Vec3.dot, Vec3.add_def, Vec3.add] at h1 h2 h3 ⊢
+  linarith
+
 /-- rotations preserve all pairwise distances -/
 theorem IsRot.dist_preserved {A : Mat3 ℝ} (hA : IsRot A) (u v : Vec3 ℝ) :
     Vec3.normSq (A.mulVec u - A.mulVec v) = Vec3.normSq (u - v) := by
